@@ -20,7 +20,7 @@ Qed.
 
 (* model of Context.addinstruction: append on success, record an error otherwise *)
 Definition add_instruction (nodes : list instr) (errs : nat) (r : option instr) : list instr * nat :=
-  match r with Some i => (nodes ++ [i], errs) | None => (nodes, S errs) end.
+  match r with Some i => (List.app nodes [i], errs) | None => (nodes, S errs) end.
 Lemma rejected_adds_nothing_lemma nodes errs : add_instruction nodes errs None = (nodes, S errs).
 Proof. reflexivity. Qed.
 
